@@ -384,6 +384,28 @@ func TestWholeFrames(t *testing.T) {
 		if !bytes.Equal(src.Remaining(), sentinel) {
 			t.Fatalf("ReadFrame consumed %d bytes of a %d-byte frame", src.Pos, len(want))
 		}
+		// A transport hiccup inside the header (one read returns an error, the next would go on): the frame was not
+		// read, ReadFrame must say so - it must not carry on with the payload as if the header had been complete.
+		if hl := len(ref.EncodeHeader(h)); hl > 2 {
+			at := rapid.IntRange(1, hl-1).Draw(t, "stallAt")
+			st := tx.NewSrc(want, sizes)
+			st.StallAt = map[int]bool{at: true}
+			if fr, err := ws.ReadFrame(st); err == nil {
+				t.Fatalf("ReadFrame reported success (%d payload bytes) although the read of header byte %d of %d failed (header %v)", len(fr.Payload), at, hl, h)
+			}
+		}
+		// A destination that fails one write (the header's or the payload's) and then works again: WriteFrame
+		// reports the failure; it never returns nil for a frame that did not go out whole.
+		if n > 0 {
+			for failAt := 0; failAt < 2; failAt++ {
+				fr := tx.NewRec()
+				fr.FailAt, fr.Transient = failAt, true
+				err := ws.WriteFrame(fr, f)
+				if err == nil && !bytes.Equal(fr.Bytes(), want) {
+					t.Fatalf("WriteFrame returned nil although destination write %d failed: %d of %d bytes went out (header %v)", failAt, fr.Len(), len(want), h)
+				}
+			}
+		}
 		// A frame cut short anywhere in the payload must not be returned as whole.
 		if n > 0 {
 			cut := rapid.IntRange(0, n-1).Draw(t, "cut")
